@@ -16,7 +16,7 @@ use std::rc::Rc;
 use std::time::Duration;
 
 use sozu_command_lib::proto::command::{LoadBalancingAlgorithms, LoadBalancingParams, LoadMetric};
-use sozu_lib::backends::{Backend, BackendMap, BackendStatus};
+use sozu_lib::backends::{Backend, BackendMap, BackendStatus, HealthStatus};
 use sozu_lib::load_balancing::{self, LoadBalancingAlgorithm, Maglev, Rendezvous, DEFAULT_HASH_SEED};
 use sozu_lib::retry::{RetryAction, RetryPolicy, RetryPolicyWrapper};
 use verif_harness::*;
@@ -81,6 +81,17 @@ fn policy_set(b: &mut Backend, tries: usize, wait_secs: u64) {
     }
 }
 
+/// the property's eligibility predicate, from the raw fields (not through
+/// `Backend::can_open`, which is what is being checked): healthy, Normal, and
+/// not inside a back-off window (a window is open iff `wait > 0`: windows are
+/// whole model seconds and a case runs for far less than one)
+fn own_okay(b: &Backend) -> bool {
+    policy_state(b).2 == 0
+}
+fn own_can_open(b: &Backend) -> bool {
+    b.health.status == HealthStatus::Healthy && b.status == BackendStatus::Normal && own_okay(b)
+}
+
 impl St {
     fn hidx(&self, b: &B) -> i128 {
         self.handles.iter().position(|h| Rc::ptr_eq(h, b)).map(|i| i as i128).unwrap_or(-1)
@@ -121,17 +132,21 @@ impl St {
         if bb.status != BackendStatus::Normal {
             out.viol("not-normal", &format!("{what}: returned backend h{h} has status {:?}", bb.status));
         }
-        let any_open = list.iter().any(|x| x.borrow().can_open());
-        if bb.can_open() {
-            if bb.backup && list.iter().any(|x| !x.borrow().backup && x.borrow().can_open()) {
+        let any_open = list.iter().any(|x| own_can_open(&x.borrow()));
+        if own_can_open(&bb) {
+            if bb.backup && list.iter().any(|x| !x.borrow().backup && own_can_open(&x.borrow())) {
                 out.viol("backup-over-primary", &format!("{what}: backup h{h} selected while a primary can open"));
             }
         } else if any_open {
-            out.viol("ineligible", &format!("{what}: h{h} cannot open (health/backoff/status) while another backend can"));
-        } else if !(bb.status == BackendStatus::Normal
-            && matches!(bb.retry_policy.can_try(), Some(RetryAction::OKAY)))
-        {
+            out.viol("ineligible", &format!("{what}: h{h} cannot open (healthy={} status={:?} backoff={}) while another backend can", bb.health.is_healthy(), bb.status, !own_okay(&bb)));
+        } else if !(bb.status == BackendStatus::Normal && own_okay(&bb)) {
             out.viol("failopen", &format!("{what}: fail-open returned h{h}, which is not Normal with retry OKAY"));
+        }
+        if bb.can_open() != own_can_open(&bb) {
+            out.viol("can-open-predicate", &format!("h{h}: can_open()={} but healthy={} status={:?} backoff={}", bb.can_open(), bb.health.is_healthy(), bb.status, !own_okay(&bb)));
+        }
+        if matches!(bb.retry_policy.can_try(), Some(RetryAction::OKAY)) != own_okay(&bb) {
+            out.viol("can-try-predicate", &format!("h{h}: can_try() disagrees with the back-off window state"));
         }
     }
     fn check_counts(&self, out: &mut Out, what: &str, target: Option<usize>) {
@@ -494,12 +509,12 @@ fn run(case: &Case, out: &mut Out) {
                 let first = list.iter().find(|b| b.borrow().sticky_id.as_deref() == Some(s.as_str())).cloned();
                 let got = st.map.backends.get_mut(&cluster_of(c)).and_then(|l| l.find_sticky(&s).map(|b| b.clone()));
                 if let Some(f) = &first {
-                    if f.borrow().can_open() && !got.as_ref().is_some_and(|g| Rc::ptr_eq(g, f)) {
+                    if own_can_open(&f.borrow()) && !got.as_ref().is_some_and(|g| Rc::ptr_eq(g, f)) {
                         out.viol("sticky-loses", &format!("h{} carries sticky id {s} and can open, but was not returned", st.hidx(f)));
                     }
                 }
                 if let Some(g) = &got {
-                    if !g.borrow().can_open() || g.borrow().sticky_id.as_deref() != Some(s.as_str()) {
+                    if !own_can_open(&g.borrow()) || g.borrow().sticky_id.as_deref() != Some(s.as_str()) {
                         out.viol("sticky-ineligible", &format!("find_sticky returned h{} which cannot open or does not carry {s}", st.hidx(g)));
                     }
                     if !list.iter().any(|x| Rc::ptr_eq(x, g)) {
@@ -535,6 +550,12 @@ fn run(case: &Case, out: &mut Out) {
                     o.push(tbool(b.load_balancing_parameters.is_some()));
                     o.push(tn(b.load_balancing_parameters.as_ref().map(|p| p.weight).unwrap_or(0)));
                     o.push(tbool(b.can_open()));
+                    if b.can_open() != own_can_open(&b) {
+                        out.viol("can-open-predicate", &format!("can_open()={} but healthy={} status={:?} backoff={}", b.can_open(), b.health.is_healthy(), b.status, !own_okay(&b)));
+                    }
+                    if b.is_available() != (b.health.status == HealthStatus::Healthy && b.status == BackendStatus::Normal && t < m) {
+                        out.viol("is-available-predicate", "is_available() disagrees with healthy && Normal && tries < max");
+                    }
                     o.push(tbool(b.is_available()));
                     o.push(tbool(b.retry_policy.is_down()));
                 }
